@@ -453,6 +453,23 @@ def run(ck: Check):
     ck.extra["struct_counts"] = {k: sum(1 for s in structs.values() if s["kind"] == k)
                                  for k in ("request", "response", "aux", "schema")}
     ck.extra["builders"] = len(builders)
+    # the response CLASS a request names must carry the request's own api key and version: the client reads the version
+    # back from the parsed reply (response.API_VERSION decides the SASL token framing after SaslHandshake, the Fetch
+    # part layout, ...), so a class of another version with an identical schema is still the wrong one
+    npair = 0
+    for n, s_ in structs.items():
+        if s_["kind"] != "request":
+            continue
+        r_ = structs.get(s_["resp"])
+        npair += 1
+        if r_ is None or r_.get("key") != s_["key"] or r_.get("ver") != s_["ver"]:
+            ck.violation(f"{n} (api key {s_['key']}, version {s_['ver']}) names the response class {s_['resp']} "
+                         f"(api key {r_ and r_.get('key')}, version {r_ and r_.get('ver')}): its reply is not parsed with "
+                         f"the response type of the request's version",
+                         {"kind": "response-class-pairing", "request": n, "response": s_["resp"],
+                          "request_version": s_["ver"], "response_version": r_ and r_.get("ver")},
+                         signature=f"response-class-pairing:{n}")
+    ck.obligation("correspondence:response-class-pairing-checked", npair > 0, f"{npair} request classes")
 
     # the executable model is needed even when a proof no longer checks
     okm, outm = ck.coq_make(["model/WireRun.vo", "model/C11Tables.vo", "model/C11Negotiate.vo", "gen/Schemas.vo"])
